@@ -87,6 +87,35 @@ type sgCase struct {
 	// replay: the exact text that failed (with @PORT@) and whether a real start was part of it
 	Text  string `json:"text,omitempty"`
 	Start bool   `json:"start,omitempty"`
+	// a case of SetupPairs.tla: two directives of one site sharing a log file
+	Pair bool   `json:"pair,omitempty"`
+	D1   string `json:"d1,omitempty"`
+	K1   string `json:"k1,omitempty"`
+	V1   string `json:"v1,omitempty"`
+	D2   string `json:"d2,omitempty"`
+	K2   string `json:"k2,omitempty"`
+	V2   string `json:"v2,omitempty"`
+}
+
+// renderPair: both directives log to one writable file in the scratch directory.
+func renderPair(c *sgCase) (text, name string) {
+	line := func(d, k, v, scope string) string {
+		s := "\t" + d
+		if d == "log" {
+			s += " " + scope
+		}
+		s += " @SCRATCH@/shared.log"
+		if k != "none" {
+			if k == "rotate_compress" {
+				v = ""
+			}
+			s += " {\n\t\t" + strings.TrimSpace(k+" "+v) + "\n\t}"
+		}
+		return s + "\n"
+	}
+	text = "127.0.0.1:@PORT@ {\n\tbind 127.0.0.1\n" + line(c.D1, c.K1, c.V1, "/") + line(c.D2, c.K2, c.V2, "/x") + "}\n"
+	name = fmt.Sprintf("pair %s{%s %s} %s{%s %s}", c.D1, c.K1, c.V1, c.D2, c.K2, c.V2)
+	return text, name
 }
 
 // ---- vocabulary (must equal Vocab of SetupGrammar.tla; checked against the cases and the sources)
@@ -224,16 +253,16 @@ func vocabularyCheck(cases []sgCase) []string {
 
 var spell = map[string][]string{
 	"em": {`""`},
-	"wd": {"alpha", "beta", "GET", "x.y"},
+	"wd": {"alpha", "beta", "GET", "x.y", "{$}{$X}", "{%%}{%X%}"}, // the last two: an empty environment reference in front of another one
 	"in": {"10", "0", "1", "5", "404", "65536"},
 	"ni": {"-1", "-10"},
 	"hi": {"99999999999999999999", "9223372036854775808", "4294967296"},
 	"fl": {"1.5", "0.5", "1e3"},
 	"du": {"10s", "5m", "1h30m", "0s", "1ms"},
 	"sz": {"10MB", "1kb", "5gb", "100B"},
-	"pa": {"/", "@SCRATCH@/exist.txt", "@SCRATCH@/missing/none.txt", "@SCRATCH@/dir", "/api", "*.html", ".php"},
+	"pa": {"/", "@SCRATCH@/exist.txt", "@SCRATCH@/missing/none.txt", "@SCRATCH@/dir", "/api", "*.html", ".php", "@SCRATCH@/cert.pem", "@SCRATCH@/key.pem"},
 	"ur": {"http://127.0.0.1:9", "https://localhost:9/base", "127.0.0.1:9", "unix:@SCRATCH@/sock", "ws://127.0.0.1:9",
-		"127.0.0.1:8081-8083", "localhost:65533-65535"}, // upstream port ranges, the second one up to the largest port
+		"127.0.0.1:8081-8083", "localhost:65533-65535", "quic://127.0.0.1:9"}, // upstream port ranges, the second one up to the largest port
 	"rx": {"([", "^/(.*", "(?P<a", "*"},
 	"qs": {`"two words"`, `"a b c"`},
 	"ob": {"{"},
@@ -383,9 +412,12 @@ func render(c *sgCase, rnd *rand.Rand) (text, name string) {
 // ---- worker side ---------------------------------------------------------------------------------
 
 type job struct {
-	Text    string `json:"text"`
-	Start   bool   `json:"start"`   // also run a real casket.Start when validate and load accept
-	StartNo bool   `json:"startno"` // also run a real casket.Start although validate refused (must fail)
+	Text string `json:"text"`
+	// Strict: the environment of this case is under control (its files are writable, its port is
+	// free): a real start that refuses what -validate accepted disagrees about the directives
+	Strict  bool `json:"strict,omitempty"`
+	Start   bool `json:"start"`   // also run a real casket.Start when validate and load accept
+	StartNo bool `json:"startno"` // also run a real casket.Start although validate refused (must fail)
 }
 
 type phase struct {
@@ -472,6 +504,9 @@ func handle(line []byte) []byte {
 				o.Start = phase{St: "panic", Msg: "while stopping: " + p.Msg}
 			}
 		}
+	}
+	if j.Strict && o.Validate.St == "ok" && o.Load.St == "ok" && o.Start.St == "err" && !strings.Contains(o.Start.Msg, "address already in use") {
+		o.Load = phase{St: "err", Msg: "(a real start, everything it needs being there) " + o.Start.Msg}
 	}
 	b, _ := json.Marshal(&o)
 	return b
@@ -616,7 +651,10 @@ func TestC11(t *testing.T) {
 	if rp, ok := hx.LoadReplay[sgCase](t); ok {
 		res.Count("replay")
 		_, name := render(&rp, rand.New(rand.NewSource(1)))
-		report(&rp, name, &job{Text: rp.Text, Start: rp.Start, StartNo: rp.Start})
+		if rp.Pair {
+			_, name = renderPair(&rp)
+		}
+		report(&rp, name, &job{Text: rp.Text, Start: rp.Start, StartNo: rp.Start && !rp.Pair, Strict: rp.Pair})
 		res.Replayed = 1
 		return
 	}
@@ -625,6 +663,9 @@ func TestC11(t *testing.T) {
 	nExh := len(cases)
 	if hx.CasesPath("SetupGrammarSim") != "" {
 		cases = append(cases, hx.LoadCases[sgCase](t, "SetupGrammarSim")...)
+	}
+	if hx.CasesPath("SetupPairs") != "" {
+		cases = append(cases, hx.LoadCases[sgCase](t, "SetupPairs")...)
 	}
 	res.AddExtra("cases_from_tlc_exhaustive", nExh)
 	res.AddExtra("cases_from_tlc_simulated", len(cases)-nExh)
@@ -649,8 +690,14 @@ func TestC11(t *testing.T) {
 				c := &cases[i]
 				rnd := rand.New(rand.NewSource(seed*2654435761 + int64(i)))
 				text, name := render(c, rnd)
+				if c.Pair {
+					text, name = renderPair(c)
+				}
 				hsh := h32(name + fmt.Sprint(seed))
-				j := &job{Text: text}
+				j := &job{Text: text, Strict: c.Pair}
+				if c.Pair {
+					hsh = 0 // always started for real
+				}
 				// a real start: a quarter of the cases; tls only when it cannot want a certificate
 				if hsh%4 == 0 {
 					j.Start = true
